@@ -511,4 +511,57 @@ theorem fields_roundtrip (all : List TypeDef) (hwf : wfInputTypes all = true) : 
       simp only [astFromFields, hft, hl, fieldsOK, hvk, hok, hoks, coerceFields, hco, hcos, Bool.and_self, and_self]
 end
 
+/-! ### the pinned function agrees with the repaired one on scalar-like defaults -/
+
+theorem astNamed_scalar (all : List TypeDef) (n : String) (v : JVal) (h : isScalarName all n = true) :
+    astNamed all n v = some (astLeaf all n v) := by
+  unfold isScalarName at h
+  unfold astNamed
+  rcases hf : findType all n with _ | td
+  · simp [hf] at h
+  · cases td <;> simp [hf] at h ⊢
+
+mutual
+theorem pinned_eq_on_scalarLike (all : List TypeDef) : ∀ (v : JVal) (t : GType), scalarLike all t v = true →
+    astFromValuePinned all t v = astFromValue all t v
+  | .null, t, _ => by simp [astFromValuePinned, astFromValue]
+  | .list xs, t, h => by
+    simp only [scalarLike] at h
+    simp only [astFromValuePinned, astFromValue]
+    rcases hs : GType.stripNN t with n | it | u
+    · simp only [hs] at h ⊢
+      rw [astNamed_scalar all _ _ h]
+    · simp only [hs] at h ⊢
+      rw [pinneds_eq_on_scalarLike all xs it h]
+    · simp only [hs] at h ⊢
+      rw [astNamed_scalar all _ _ h]
+  | .obj fs, t, h => by
+    simp only [scalarLike] at h
+    simp only [astFromValuePinned, astFromValue]
+    have := astNamed_scalar all t.namedName (.obj fs) h
+    unfold isScalarName at h
+    rcases hf : findType all t.namedName with _ | td
+    · simp [hf] at h
+    · cases td <;> simp [hf] at h ⊢
+      exact this.symm
+  | .bool b, t, h => by
+    simp only [scalarLike] at h
+    simp only [astFromValuePinned, astFromValue, astNamed_scalar all _ _ h]
+  | .int i, t, h => by
+    simp only [scalarLike] at h
+    simp only [astFromValuePinned, astFromValue, astNamed_scalar all _ _ h]
+  | .dec m e, t, h => by
+    simp only [scalarLike] at h
+    simp only [astFromValuePinned, astFromValue, astNamed_scalar all _ _ h]
+  | .str x, t, h => by
+    simp only [scalarLike] at h
+    simp only [astFromValuePinned, astFromValue, astNamed_scalar all _ _ h]
+theorem pinneds_eq_on_scalarLike (all : List TypeDef) : ∀ (xs : List JVal) (it : GType), scalarLikeAll all it xs = true →
+    astFromValuesPinned all it xs = astFromValues all it xs
+  | [], it, _ => by simp [astFromValuesPinned, astFromValues]
+  | x :: xs, it, h => by
+    simp only [scalarLikeAll, Bool.and_eq_true] at h
+    simp only [astFromValuesPinned, astFromValues, pinned_eq_on_scalarLike all x it h.1, pinneds_eq_on_scalarLike all xs it h.2]
+end
+
 end GqlModel.Introspection
